@@ -151,7 +151,7 @@ func VerifC03NoPanic() {
 	// two on a few lengths (thorough); all other bytes range over every remaining value.
 	k := 0
 	few := n == 1 || n == 7 || n == 30 || n == 36 || n == 63 || n == 105
-	if vrt_Tier() > 0 {
+	if vrt_Tier() > 0 && n <= 64 {
 		k = 1
 		if few && n <= 40 {
 			k = 2
